@@ -3,5 +3,5 @@ From Coq Require Import ZArith.
 From PP Require Import Gen.Src_wrappers Wrap.WrapDefs.
 Extraction "model.ml" Z.of_N Z.to_N Z.of_nat Z.to_nat N.of_nat N.to_nat N.add N.mul Z.opp
   cache_order cache_poison_first cache_final_peek fold_order fold_poison_first fold_final_peek
-  b64_order b64_poison_first b64_final_peek cache_flush_rate
+  b64_order b64_poison_first b64_final_peek cache_flush_rate fold_mid_peek fold_peek_eof_ok
   w_init wstep wstuck wterminal wlabels cum.
